@@ -16,6 +16,9 @@
     (DESIGN.md §6, D12) — the theorems hold for the model up to 2^32.
 -/
 import GoldilocksVerif.Lemmas.NttTop
+import GoldilocksVerif.Lemmas.BridgeNttTop
+import GoldilocksVerif.Lemmas.BridgeNttCtor
+import GoldilocksVerif.Lemmas.BridgeNttBuf
 
 namespace GoldilocksVerif.C03
 open GoldilocksVerif.Model.Ntt GoldilocksVerif.NttSpec Finset
@@ -82,5 +85,216 @@ example : ∃ o out, mkObj 8 1 = some o ∧
   obtain ⟨out, e, _⟩ := C03_forward_transform 8 1 o ho (by omega) 2 (by omega) 3 3 2 (by omega) .same #[]
     (Array.replicate (2 ^ 2 * 3) 1#64) (by simp) (by simp)
   exact ⟨o, out, ho, e⟩
+
+/-! ### the model GENERATED from ntt_goldilocks.cpp / .hpp (Gen/NttGen.lean, heap mode of the translator; DESIGN.NTTGEN.md)
+  The statements above are about the hand model.  The functions below are translated from the C++ text on every run,
+  executed against the compiled code by the campaign of this check (`nttseqg`), and PROVED equal to the hand model
+  piece by piece (Lemmas/BridgeNtt*.lean): a change of the source that the test generators do not reach breaks these proofs.
+  `hp` is the heap (list of memory blocks), `self` the generated object state, `ObjRep hp self o` says that they represent
+  the hand model's object `o`; `bv n = BitVec.ofNat 64 n`. -/
+section generated
+open GoldilocksVerif.BridgeNtt Gen.NttGen
+
+/-- generated `NTT_Goldilocks::log2` = `Nat.log2` for every non-zero 64-bit size and every fuel ≥ 64; `log2(0)` is the
+    failed assert -/
+theorem C03_generated_log2 (fuel : Nat) (hf : 64 ≤ fuel) (size : BitVec 64) :
+    NTT_log2 fuel size = if size = 0#64 then none else some (BitVec.ofNat 32 (log2 size.toNat)) := by
+  by_cases h : size = 0#64
+  · subst h; rw [if_pos rfl]; exact log2_gen_zero fuel
+  · rw [if_neg h]; exact log2_gen_eq fuel hf size h
+
+/-- generated `intt_idx` (on `int`) = the model's `inttIdx` -/
+theorem C03_generated_intt_idx (i N : Nat) (h : i ≤ N) : NTT_intt_idx (i : Int) (N : Int) = ((inttIdx i N : Nat) : Int) :=
+  intt_idx_gen i N h
+
+/-- generated `BR` = the model's `br`, hence the bit reversal of the low `d` bits -/
+theorem C03_generated_BR (d i : Nat) (hd : d ≤ 32) (hi : i < 2 ^ d) :
+    (BR (BitVec.ofNat 64 i) (BitVec.ofNat 64 d)).toNat = bitrev d i := by
+  have h64 : (2 : Nat) ^ d < 2 ^ 64 := Nat.pow_lt_pow_right (by omega) (by omega)
+  have e1 : (BitVec.ofNat 64 i).toNat = i := by rw [BitVec.toNat_ofNat]; exact Nat.mod_eq_of_lt (by omega)
+  have e2 : (BitVec.ofNat 64 d).toNat = d := by rw [BitVec.toNat_ofNat]; exact Nat.mod_eq_of_lt (by omega)
+  rw [BR_gen _ _ (by rw [e2]; exact hd), e1, e2, br_eq_bitrev d i hd hi]
+
+/-- generated `root` reads the model's twiddle table -/
+theorem C03_generated_root (hp : Heap) (self : NTT_Goldilocks) (o : Obj) (h : ObjRep hp self o) (dp : BitVec 32)
+    (idx : BitVec 64) (hdp : dp.toNat ≤ o.s) (hidx : idx.toNat * 2 ^ (o.s - dp.toNat) < 2 ^ 64) :
+    NTT_root hp self dp idx = root o dp.toNat idx.toNat :=
+  root_gen hp self o dp idx h.roots h.roots_off h.hs hdp hidx
+
+/-- generated `reversePermutation` (all four branches) changes the destination block exactly as the model changes its
+    buffer; the failed assert is the model's error -/
+theorem C03_generated_reversePermutation (fuel : Nat) (hf : 64 ≤ fuel) (hp : Heap) (self : NTT_Goldilocks) (o : Obj)
+    (d s : Nat) (size oc nc nca : BitVec 64) (k : Nat) (hk : k ≤ 32) (hsize : size.toNat = 2 ^ k) (hd : d < hp.size)
+    (hext : self.extension = (o.extension : Int)) (hext31 : o.extension < 2 ^ 31)
+    (hb1 : size.toNat * nca.toNat + oc.toNat < 2 ^ 64) (hb2 : size.toNat * nc.toNat < 2 ^ 64) (hb3 : nc.toNat * 8 < 2 ^ 64) :
+    NTT_reversePermutation fuel hp self ⟨d, 0⟩ ⟨s, 0⟩ size oc nc nca =
+      match reversePermutation o (hp.block d) (hp.block s) (decide (d = s)) size.toNat oc.toNat nc.toNat nca.toNat with
+      | .ok D => some (hp.setBlock d D)
+      | .error _ => none :=
+  reversePermutation_gen fuel hf hp self o d s size oc nc nca k hk hsize hd hext hext31 hb1 hb2 hb3
+
+/-- generated `NTT_iters` (2 ≤ size = 2^K ≤ 2^30: schedule, butterflies, twiddle index, transposing / reflecting copies,
+    pointer ping-pong, never-needed copy) returns iff the model's `nttIters` does, with the model's result in the
+    destination block -/
+theorem C03_generated_NTT_iters (fuel : Nat) (hf : 64 ≤ fuel) (hp : Heap) (self : NTT_Goldilocks) (o : Obj)
+    (hrep : ObjRep hp self o) (D Sx Ax : Nat) (hD : D < hp.size) (hAx : Ax < hp.size) (hDA : D ≠ Ax) (hSA : Sx ≠ Ax)
+    (hfrD : ObjFrame self D) (hfrA : ObjFrame self Ax)
+    (dst : Ptr) (hdst : (if (dst != Ptr.null) = true then dst else (⟨Sx, 0⟩ : Ptr)) = ⟨D, 0⟩)
+    (K N oc NC NCA : Nat) (nphase : BitVec 64) (inverse extend : Bool)
+    (hK1 : 1 ≤ K) (hK : K ≤ 30) (hN : N = 2 ^ K) (hKs : K ≤ o.s) (hos : o.s ≤ 32)
+    (hb1 : N * NCA + oc < 2 ^ 64) (hNNC : N * NC < 2 ^ 64) (hNC8 : NC * 8 < 2 ^ 64) (hext31 : o.extension < 2 ^ 31)
+    (hcache : extend = true → o.rcache ≠ none) :
+    match nttIters o (hp.block D) (hp.block Sx) (hp.block Ax) (decide (D = Sx)) N oc NC NCA nphase.toNat inverse extend with
+    | .ok (d, _) => ∃ X', NTT_NTT_iters fuel hp self dst ⟨Sx, 0⟩ (bv N) (bv oc) (bv NC) (bv NCA) nphase ⟨Ax, 0⟩ inverse extend =
+        some ((hp.setBlock D d).setBlock Ax X') ∧ X'.size = (hp.block Ax).size
+    | .error _ => NTT_NTT_iters fuel hp self dst ⟨Sx, 0⟩ (bv N) (bv oc) (bv NC) (bv NCA) nphase ⟨Ax, 0⟩ inverse extend = none :=
+  nttIters_gen fuel hf hp self o hrep D Sx Ax hD hAx hDA hSA hfrD hfrA dst hdst K N oc NC NCA nphase inverse extend hK1 hK hN
+    hKs hos hb1 hNNC hNC8 hext31 hcache
+
+/-- generated `NTT` = the model's `ntt` (default call shape: no caller scratch buffer, one column block) -/
+theorem C03_generated_NTT_eq_model (fuel : Nat) (hf : 64 ≤ fuel) (hp : Heap) (self : NTT_Goldilocks) (o : Obj)
+    (hrep : ObjRep hp self o) (hin : ObjIn hp self) (D Sx : Nat) (hD : D < hp.size) (hSx : Sx < hp.size) (hD0 : D ≠ 0)
+    (hfrD : ObjFrame self D) (mode : DstMode) (hmode : mode = .other ↔ D ≠ Sx)
+    (dst : Ptr) (hdst : (if (dst == Ptr.null) = true then (⟨Sx, 0⟩ : Ptr) else dst) = ⟨D, 0⟩)
+    (K N NC : Nat) (nphase nblock : BitVec 64) (inverse extend : Bool)
+    (hK1 : 1 ≤ K) (hK : K ≤ 30) (hN : N = 2 ^ K) (hKs : K ≤ o.s) (hos : o.s ≤ 32) (hNC1 : 1 ≤ NC)
+    (hNNC8 : N * NC * 8 < 2 ^ 64) (hext31 : o.extension < 2 ^ 31) (hcache : extend = true → o.rcache ≠ none)
+    (hnb : clampBlock nblock.toNat NC = 1) :
+    match ntt o mode (hp.block D) (hp.block Sx) N NC nphase.toNat nblock.toNat inverse extend with
+    | .ok (d, _) => NTT_NTT fuel hp self dst ⟨Sx, 0⟩ (bv N) (bv NC) Ptr.null nphase nblock inverse extend =
+        some (hp.setBlock D d)
+    | .error _ => NTT_NTT fuel hp self dst ⟨Sx, 0⟩ (bv N) (bv NC) Ptr.null nphase nblock inverse extend = none :=
+  NTT_gen fuel hf hp self o hrep hin D Sx hD hSx hD0 hfrD mode hmode dst hdst K N NC nphase nblock inverse extend hK1 hK hN hKs
+    hos hNC1 hNNC8 hext31 hcache hnb
+
+/-- generated constructor `NTT_Goldilocks(maxDomainSize ≠ 0, nThreads, extension)` (GMP calls by their results): it throws
+    iff the model's `mkObj` returns `none`; otherwise it appends the model's `roots` and `powTwoInv` tables as two new
+    blocks, the assert `roots[nRoots-1]·roots[1] == 1` passes, and the new object state represents the model's object -/
+theorem C03_generated_constructor (fuel : Nat) (hf : 64 ≤ fuel) (hp : Heap) (hpos : 0 < hp.size) (self0 : NTT_Goldilocks)
+    (m : BitVec 64) (thr : BitVec 32) (e : Nat) (hm0 : m ≠ 0#64) :
+    match mkObj m.toNat e with
+    | none => NTT_ctor fuel hp self0 m thr (e : Int) = none
+    | some o => ∃ self', NTT_ctor fuel hp self0 m thr (e : Int) = some ((hp.push o.roots).push o.powTwoInv, self') ∧
+        ObjRep ((hp.push o.roots).push o.powTwoInv) self' o ∧ ObjIn ((hp.push o.roots).push o.powTwoInv) self' := by
+  cases hobj : mkObj m.toNat e with
+  | none =>
+    have h := ctor_gen fuel hf hp hpos self0 m thr e hm0
+    rw [hobj] at h
+    exact h
+  | some o =>
+    obtain ⟨self', h1, h2, h3, _⟩ := ctor_rep fuel hf hp hpos self0 m thr e hm0 o hobj
+    exact ⟨self', h1, h2, h3⟩
+
+/-- **the property on the generated function**: for an object state representing a constructed object, sizes
+    2 ≤ 2^d ≤ min(maxDomainSize, 2^30), every nphase, nblock clamping to one block, no caller buffer, every destination
+    mode: the TRANSLATED `NTT` returns, changes only the destination block, and that block holds the DFT of every column -/
+theorem C03_generated_forward_transform (maxDomainSize extension : Nat) (o : Obj) (hobj : mkObj maxDomainSize extension = some o)
+    (hext : extension ≤ 1) (d : Nat) (hd1 : 1 ≤ d) (hd30 : d ≤ 30) (hn : 2 ^ d ≤ maxDomainSize)
+    (fuel : Nat) (hf : 64 ≤ fuel) (hp : Heap) (self : NTT_Goldilocks) (hrep : ObjRep hp self o) (hin : ObjIn hp self)
+    (D Sx : Nat) (hD : D < hp.size) (hSx : Sx < hp.size) (hD0 : D ≠ 0) (hfrD : ObjFrame self D)
+    (mode : DstMode) (hmode : mode = .other ↔ D ≠ Sx)
+    (dst : Ptr) (hdst : (if (dst == Ptr.null) = true then (⟨Sx, 0⟩ : Ptr) else dst) = ⟨D, 0⟩)
+    (ncols : Nat) (nphase nblock : BitVec 64) (hnc : 1 ≤ ncols) (hbound : 2 ^ d * ncols * 8 < 2 ^ 64)
+    (hnb : clampBlock nblock.toNat ncols = 1)
+    (hsrc : (hp.block Sx).size = 2 ^ d * ncols) (hdsts : mode = .other → (hp.block D).size = 2 ^ d * ncols) :
+    ∃ out, NTT_NTT fuel hp self dst ⟨Sx, 0⟩ (bv (2 ^ d)) (bv ncols) Ptr.null nphase nblock false false = some (hp.setBlock D out) ∧
+      out.size = 2 ^ d * ncols ∧
+      ∀ k c, k < 2 ^ d → c < ncols →
+        den (out.getD (k * ncols + c) 0#64)
+          = ∑ j ∈ range (2 ^ d), den ((hp.block Sx).getD (j * ncols + c) 0#64) * omega d ^ (j * k) := by
+  have hm : maxDomainSize ≠ 0 := by have := Nat.two_pow_pos d; omega
+  obtain ⟨hs1, hs2, hs3⟩ := mkObj_s_val maxDomainSize extension o hm hobj
+  have hdl : d ≤ log2 maxDomainSize := (Nat.le_log2 hm).mpr hn
+  obtain ⟨out, e, hsz, hdft⟩ := C03_forward_transform maxDomainSize extension o hobj hext d hn ncols nphase.toNat nblock.toNat
+    hnc mode (hp.block D) (hp.block Sx) hsrc hdsts
+  have hg := NTT_gen fuel hf hp self o hrep hin D Sx hD hSx hD0 hfrD mode hmode dst hdst d (2 ^ d) ncols nphase nblock false false
+    hd1 hd30 rfl (by omega) hs2 hnc hbound (by omega) (by intro h; cases h) hnb
+  rw [e] at hg
+  exact ⟨out, hg, hsz, hdft⟩
+
+/-- **end to end on the generated functions, no hypothesis about the object**: on any heap, the TRANSLATED constructor for
+    `maxDomainSize ≤ 2^32` followed by the TRANSLATED `NTT` of a size 2 ≤ 2^d ≤ min(maxDomainSize, 2^30) returns, and the
+    destination block holds the DFT of every column of the source block (this is what the request `nttseqg` of the
+    correspondence campaign executes) -/
+theorem C03_generated_construct_and_transform (fuel : Nat) (hf : 64 ≤ fuel) (hp : Heap) (self0 : NTT_Goldilocks)
+    (m : BitVec 64) (thr : BitVec 32) (e : Nat) (he : e ≤ 1) (hm32 : m.toNat ≤ 2 ^ 32)
+    (d : Nat) (hd1 : 1 ≤ d) (hd30 : d ≤ 30) (hn : 2 ^ d ≤ m.toNat)
+    (D Sx : Nat) (hD : D < hp.size) (hSx : Sx < hp.size) (hD0 : D ≠ 0)
+    (mode : DstMode) (hmode : mode = .other ↔ D ≠ Sx)
+    (dst : Ptr) (hdst : (if (dst == Ptr.null) = true then (⟨Sx, 0⟩ : Ptr) else dst) = ⟨D, 0⟩)
+    (ncols : Nat) (nphase nblock : BitVec 64) (hnc : 1 ≤ ncols) (hbound : 2 ^ d * ncols * 8 < 2 ^ 64)
+    (hnb : clampBlock nblock.toNat ncols = 1)
+    (hsrc : (hp.block Sx).size = 2 ^ d * ncols) (hdsts : mode = .other → (hp.block D).size = 2 ^ d * ncols) :
+    ∃ hp1 self out, NTT_ctor fuel hp self0 m thr (e : Int) = some (hp1, self) ∧
+      NTT_NTT fuel hp1 self dst ⟨Sx, 0⟩ (bv (2 ^ d)) (bv ncols) Ptr.null nphase nblock false false = some (hp1.setBlock D out) ∧
+      out.size = 2 ^ d * ncols ∧
+      ∀ k c, k < 2 ^ d → c < ncols →
+        den (out.getD (k * ncols + c) 0#64)
+          = ∑ j ∈ range (2 ^ d), den ((hp.block Sx).getD (j * ncols + c) 0#64) * omega d ^ (j * k) := by
+  have hmn : m.toNat ≠ 0 := by have := Nat.two_pow_pos d; omega
+  have hm0 : m ≠ 0#64 := by intro h; rw [h] at hmn; exact hmn rfl
+  obtain ⟨o, hobj⟩ := mkObj_some m.toNat e (by
+    show Nat.log2 m.toNat ≤ 32
+    by_contra h
+    have := (Nat.le_log2 hmn).mp (show 33 ≤ Nat.log2 m.toNat by omega)
+    omega)
+  obtain ⟨self, hc, hrep, hin, _⟩ := ctor_rep fuel hf hp (by omega) self0 m thr e hm0 o hobj
+  have hb1 : ∀ c, c < hp.size → ((hp.push o.roots).push o.powTwoInv).block c = hp.block c := by
+    intro c hc'
+    rw [Heap.block_push_lt _ _ _ (by simp; omega), Heap.block_push_lt _ _ _ hc']
+  have hfr : ObjFrame self D := by
+    have h := ctor_gen fuel hf hp (by omega) self0 m thr e hm0
+    rw [hobj] at h
+    obtain ⟨self', h1, _, h3, h4, h5, h6, _, _⟩ := h
+    have : self' = self := by
+      rw [hc] at h1; injection h1 with h1; injection h1 with _ h1; exact h1.symm
+    subst this
+    refine ⟨?_, ?_, ?_, ?_⟩
+    · rw [h3]; show D ≠ hp.size; omega
+    · rw [h4]; show D ≠ hp.size + 1; omega
+    · rw [h5]; exact hD0
+    · rw [h6]; exact hD0
+  obtain ⟨out, hntt, hsz, hdft⟩ := C03_generated_forward_transform m.toNat e o hobj he d hd1 hd30 hn fuel hf
+    ((hp.push o.roots).push o.powTwoInv) self hrep hin D Sx (by simp; omega) (by simp; omega) hD0 hfr mode hmode dst hdst ncols
+    nphase nblock hnc hbound hnb (by rw [hb1 _ hSx]; exact hsrc) (by intro h; rw [hb1 _ hD]; exact hdsts h)
+  refine ⟨_, self, out, hc, hntt, hsz, ?_⟩
+  intro k c hk hc'
+  rw [hdft k c hk hc', hb1 _ hSx]
+
+/-- **the property on the generated function, caller scratch buffer**: `NTT(dst, src, size, ncols, buffer, …)` with a buffer
+    block of at least size·ncols words and ANY content: the TRANSLATED function returns, changes only the destination and the
+    buffer block, and the destination block holds the DFT of every column.  (Route: generated `NTT_iters` = the model's
+    `nttIters` run with that buffer as `aux`; the model's field-level specification holds for every `aux`.) -/
+theorem C03_generated_forward_transform_buffer (maxDomainSize extension : Nat) (o : Obj)
+    (hobj : mkObj maxDomainSize extension = some o) (hext : extension ≤ 1) (d : Nat) (hd1 : 1 ≤ d) (hd30 : d ≤ 30)
+    (hn : 2 ^ d ≤ maxDomainSize)
+    (fuel : Nat) (hf : 64 ≤ fuel) (hp : Heap) (self : NTT_Goldilocks) (hrep : ObjRep hp self o)
+    (D Sx B : Nat) (hD : D < hp.size) (hB : B < hp.size) (hD0 : D ≠ 0) (hB0 : B ≠ 0) (hDB : D ≠ B) (hSB : Sx ≠ B)
+    (hfrD : ObjFrame self D) (hfrB : ObjFrame self B)
+    (dst : Ptr) (hdst : (if (dst == Ptr.null) = true then (⟨Sx, 0⟩ : Ptr) else dst) = ⟨D, 0⟩)
+    (ncols : Nat) (nphase nblock : BitVec 64) (hnc : 1 ≤ ncols) (hbound : 2 ^ d * ncols * 8 < 2 ^ 64)
+    (hnb : clampBlock nblock.toNat ncols = 1)
+    (hsrc : (hp.block Sx).size = 2 ^ d * ncols) (hdsts : (hp.block D).size = 2 ^ d * ncols)
+    (hbuf : 2 ^ d * ncols ≤ (hp.block B).size) :
+    ∃ out X', NTT_NTT fuel hp self dst ⟨Sx, 0⟩ (bv (2 ^ d)) (bv ncols) ⟨B, 0⟩ nphase nblock false false =
+        some ((hp.setBlock D out).setBlock B X') ∧
+      out.size = 2 ^ d * ncols ∧
+      ∀ k c, k < 2 ^ d → c < ncols →
+        den (out.getD (k * ncols + c) 0#64)
+          = ∑ j ∈ range (2 ^ d), den ((hp.block Sx).getD (j * ncols + c) 0#64) * omega d ^ (j * k) := by
+  have hm : maxDomainSize ≠ 0 := by have := Nat.two_pow_pos d; omega
+  obtain ⟨hs1, hs2, hs3⟩ := mkObj_s_val maxDomainSize extension o hm hobj
+  have hdl : d ≤ log2 maxDomainSize := (Nat.le_log2 hm).mpr hn
+  have hO := mkObj_ok maxDomainSize extension o hm hext hobj
+  obtain ⟨out, e, hsz, hdft⟩ := nttIters_forward o _ hO (hp.block D) (hp.block Sx) (hp.block B) (decide (D = Sx)) d ncols
+    nphase.toNat hdl (by by_cases h : D = Sx <;> simp [h, hsrc, hdsts]) hbuf
+  have hg := NTT_gen_buf fuel hf hp self o hrep D Sx B hD hB hD0 hB0 hDB hSB hfrD hfrB dst hdst d (2 ^ d) ncols nphase nblock
+    false false hd1 hd30 rfl (by omega) hs2 hnc hbound (by omega) (by intro h; cases h) hnb
+  rw [e] at hg
+  obtain ⟨X', hX, _⟩ := hg
+  refine ⟨out, X', hX, ?_, hdft⟩
+  rw [hsz]; by_cases h : D = Sx <;> simp [h, hsrc, hdsts]
+
+end generated
 
 end GoldilocksVerif.C03
